@@ -63,22 +63,9 @@ func VerifH_done() {
 	trigger := countable && deCalls0+1 >= cp.UnresponsiveCalls && lastResp0.Before(now.Add(-window)) && !refreshing0
 	canCreate := !cc.failNew && pre.nAddrs > 0
 
-	// known findings on this tree
 	isBind := c.hasCfg && c.cmd == pb.AffinityConfig_BIND
 	isUnbind := c.hasCfg && c.cmd == pb.AffinityConfig_UNBIND
 	replyKeys := c.reply != nil && len(c.reply.Keys) > 0
-	verifKnown("F-ctxnil", isBind && kind == 0 && !c.ctx.hasGcp)
-	verifKnown("F-bindnil", isBind && kind == 0 && c.ctx.hasGcp && replyKeys && !onInPool)
-	staleBinding := false
-	if c.keyed {
-		if bsc, b := gb.affinityMap[c.key]; b {
-			_, in := gb.scRefs[bsc]
-			staleBinding = !in
-		}
-	}
-	verifKnown("F-bindnil", isUnbind && kind == 0 && staleBinding)
-	verifKnown("F-refrfail", trigger && !canCreate)
-
 	verifReach("before done")
 	done(balancer.DoneInfo{Err: derr})
 	verifReach("after done")
@@ -106,7 +93,7 @@ func VerifH_done() {
 			}
 		}
 		switch {
-		case isBind && kind == 0 && c.ctx.hasGcp && inReply && !pre.bound[x]:
+		case isBind && kind == 0 && c.ctx.hasGcp && inReply && !pre.bound[x] && onInPool:
 			verifReach("key bound")
 			verifAssert(post.bound[x] && post.boundSC[x] == onSC, "C01: successful BIND did not bind the key to the channel the call was placed on")
 		case isUnbind && kind == 0 && c.keyed && c.key == k:
